@@ -5,4 +5,6 @@ cd "$(dirname "$0")"
 export CARGO_NET_OFFLINE=true CARGO_TARGET_DIR=/verif/target
 mkdir -p work evidence replays
 (cd sim && cargo build --release --offline 2>&1 | tail -3)
+(cd miri && CARGO_TARGET_DIR=/verif/target/miri cargo build --offline 2>&1 | tail -1)
+(cd miri && CARGO_TARGET_DIR=/verif/target/miri cargo +nightly miri setup 2>&1 | tail -1) || echo "miri setup failed (C18 engine B will report a harness error)"
 echo "setup done"
